@@ -316,8 +316,25 @@ pub fn run(ctx: &Ctx) -> i32 {
             let other = &shared[r.below(shared.len() as u64) as usize];
             let _ = outcome_bytes(other);
             let _ = outcome_reader(other, vec![Step::Interrupt, Step::Chunk(1)], 2);
+            // ... and inputs that fail half-way: frames of every long format cut to 1-13 bytes (the
+            // fields may parse while the checksum step fails), the empty input, a cut copy of `other`:
+            // whatever such a decode leaves behind must not reach the next one
+            for _ in 0..3 {
+                let mut p = vec![0u8; r.range(1, 13) as usize];
+                r.fill(&mut p);
+                p[0] = ((*r.pick(&[19u8, 20, 20, 21, 16, 17, 18, 24, 31])) << 3) | (r.below(8) as u8);
+                let _ = outcome_bytes(&p);
+                let _ = outcome_reader(&p, vec![Step::Chunk(r.range(1, 5) as usize), Step::Interrupt], *r.pick(&[1usize, 3, usize::MAX]));
+                col.count("purity_poison_decodes", 2);
+            }
+            let _ = outcome_bytes(&[]);
+            let _ = outcome_bytes(&other[..r.below(other.len() as u64) as usize]);
             let third = outcome_bytes(&bytes);
-            col.count("purity_repeats", 2);
+            let (fourth, _) = outcome_reader(&bytes, vec![Step::Chunk(2), Step::Interrupt], usize::MAX);
+            if fourth != base {
+                col.add(Finding { prop: "C19".into(), sig: "C19|decode_not_pure|reader_after_failed_decodes".into(), detail: format!("decode through a reader after failed decodes of other inputs differs: {base:?} / {fourth:?}"), input: json!({"frame_hex": hex(&bytes)}) });
+            }
+            col.count("purity_repeats", 3);
             if again != base || third != base {
                 col.add(Finding { prop: "C19".into(), sig: "C19|decode_not_pure|repeat".into(), detail: format!("repeated decode differs: {base:?} / {again:?} / {third:?}"), input: json!({"frame_hex": hex(&bytes)}) });
             }
